@@ -40,7 +40,7 @@ class Live:
 def apply_single(engine, op: dict):
     k = op["op"]
     if k == "inputs":
-        EO.set_inputs(engine, op["rows"])
+        EO.set_inputs(engine, op["rows"], op.get("setter", "vars"))
         return None
     if k == "process":
         return EO.process_with(engine, None)[0]
@@ -118,6 +118,15 @@ class C13(Sim):
         while len(ops) < n:
             r = rng.random()
             e = focus if rng.random() < 0.65 else rng.randrange(n_live)
+            if arm == "faults" and rng.random() < 0.22:
+                ops.append(self._inputs(rng, sp, e, vector_ok))
+                ops.append({"op": "abort", "e": e, "inj": EO.gen_injector(rng, sp, vector_ok)})
+                rr = rng.random()
+                if rr < 0.35:
+                    ops.append({"op": "restart", "e": e})
+                elif rr < 0.8:
+                    ops.append({"op": "process", "e": e})
+                continue
             if r < 0.22:
                 ops.append(self._inputs(rng, sp, e, vector_ok))
                 if n_live > 1 and rng.random() < 0.3:  # someone else processes in between
@@ -178,7 +187,8 @@ class C13(Sim):
 
     def _inputs(self, rng, sp, e, vector_ok) -> dict:
         k = rng.choice([1, 1, 1, 2, 4]) if vector_ok else 1
-        return {"op": "inputs", "e": e, "rows": [S.draw_row(rng, sp, rng.choice([0.05, 0.2, 0.4])) for _ in range(k)]}
+        return {"op": "inputs", "e": e, "rows": [S.draw_row(rng, sp, rng.choice([0.05, 0.2, 0.4])) for _ in range(k)],
+                "setter": rng.choice(["vars", "vars", "matrix"])}
 
     def _crash_cases(self, rng, sp, vector_ok, tier) -> Iterator[dict]:
         pre = [self._inputs(rng, sp, 0, vector_ok), {"op": "process", "e": 0}]
